@@ -47,6 +47,7 @@ class Deriv:
         self.repo = ctx.repo
         self.selectors, self.sorters = self._read_candidates()
         self._active = set()
+        self._partial = {}
 
     # -- tables from candidates.py ------------------------------------------------
     def _read_candidates(self):
@@ -329,11 +330,23 @@ class Deriv:
             return r if found else [Src(None, origin=name_node)]
         key = ('name', name, df.qualname, id(env) if env else 0)
         if key in self._active:
-            return []
+            # a definition that mentions the name itself (`xs = xs[:n]`, `xs = sorted(xs)`): the inner occurrence stands for
+            # what the other definitions give (computed first, see below)
+            return list(self._partial.get(key, []))
         self._active.add(key)
         try:
             r = []
+
+            def _mentions(v_):
+                node_ = v_.value if isinstance(v_, ast.AugAssign) else v_
+                return isinstance(node_, ast.AST) and any(isinstance(x_, ast.Name) and x_.id == name and isinstance(x_.ctx, ast.Load)
+                                                          for x_ in ast.walk(node_))
+            vals = sorted(vals, key=lambda vs_: 1 if _mentions(vs_[0]) else 0)
+            first_self = True
             for val, st in vals:
+                if _mentions(val) and first_self:
+                    self._partial[key] = list(r)
+                    first_self = False
                 e2 = env if df is func else None
                 if isinstance(val, ast.AugAssign):
                     r += self.sources(val.value, df, e2)
